@@ -127,8 +127,11 @@ void projection(vf::Ctx & c)
   double dlon = c.s.r("dlon_deg", -30.0, 30.0) * D2R;
   double shift = c.s.r("lon_shift", -1.0, 1.0);
   double lonAtParallel = c.s.r("dlon_parallel_deg", -30.0, 30.0) * D2R;
+  // (drawn last so that older tapes stay replayable) longitude offset packed around the central meridian instead
+  if (c.s.pick("dlon_class", {3, 1}) == 1) {dlon = c.s.near("dlon_rad", 0.0, 3.0, 12.0, -30.0 * D2R, 30.0 * D2R);}
   c.nontrivial();
   c.labelIf(dlon < 0, "west-of-central-meridian");
+  c.labelIf(dlon != 0 && std::fabs(dlon) < 1e-3, "near-central-meridian(<1e-3rad)");
   c.commit();
 
   EarthEllipsoid el = makeEllipsoid(s);
